@@ -873,6 +873,8 @@ class Interp(EvalMixin):
         key = self.canon(st, expr)
         raw = " ".join(ast.unparse(expr).split())
         if key in st.facts:
+            if raw in self.guards or key in self.guards:
+                st.emit(ev("guard", self.site(st, expr), text=key, raw=raw, truth=st.facts[key]))
             return [(st, st.facts[key])]
         if raw in self.assume_true or key in self.assume_true:
             return [(st, True)]
@@ -882,8 +884,8 @@ class Interp(EvalMixin):
         s_false.facts[key] = False
         self._note_fact(st, key, expr)
         if raw in self.guards or key in self.guards or any(g.startswith("*") and raw.endswith(g[1:]) for g in self.guards):
-            s_true.emit(ev("guard", self.site(st, expr), text=key, truth=True))
-            s_false.emit(ev("guard", self.site(st, expr), text=key, truth=False))
+            s_true.emit(ev("guard", self.site(st, expr), text=key, raw=raw, truth=True))
+            s_false.emit(ev("guard", self.site(st, expr), text=key, raw=raw, truth=False))
         self._refine_truth(expr, v, s_true, True)
         self._refine_truth(expr, v, s_false, False)
         return [(s_true, True), (s_false, False)]
